@@ -584,6 +584,33 @@ theorem no_panic_getRows (iters : List Bool) :
   simp only [Outcome.ok.injEq] at hn
   omega
 
+/-! ## the streaming row iterator -/
+
+/-- `Rows.Next` / `Rows.Columns` take no index or slice at all, and the row-number guards are in place -/
+theorem guards_rows_iterator :
+    Facts.C14.index_rowsNext = [] ∧ Facts.C14.index_rowsColumns = [] ∧
+    "rows.curRow >= rows.seekRow" ∈ Facts.C14.conds_rowsNext ∧ "rowNum > TotalRows" ∈ Facts.C14.conds_rowsNext ∧
+    "rows.curRow > rows.seekRow" ∈ Facts.C14.conds_rowsColumns := by decide
+
+/-- clause "never run without bound", one step of the iterator, for EVERY token sequence: `Next` advances
+`seekRow` by exactly one, never puts tokens back, and a `true` answer either is the catch-up step
+(`curRow ≥ seekRow`) or consumed a token; `curRow` only moves to `curRow + 1` or to a row number within
+TotalRows.  (The number of `GetRows` iterations is therefore at most TotalRows + 2 × tokens; that global
+bound is not assembled as a theorem — the fuel-bounded run `getRowsIter` is compared with `GetRows`.) -/
+theorem rows_next_step (s : RowsState) :
+    (rowsNext s).2.2.seek = s.seek + 1 ∧
+    (rowsNext s).2.2.toks.length ≤ s.toks.length ∧
+    ((rowsNext s).1 = true → s.cur ≥ s.seek + 1 ∨ (rowsNext s).2.2.toks.length < s.toks.length) ∧
+    ((rowsNext s).2.2.cur ≤ s.cur + 1 ∨ (rowsNext s).2.2.cur ≤ (Facts.TotalRows : Int)) := by
+  unfold rowsNext
+  split
+  · rename_i h; simp; exact h
+  · have := nextScan_spec s.cur (s.seek + 1) s.toks
+    generalize nextScan s.cur (s.seek + 1) s.toks = res at this
+    obtain ⟨ok, e, s'⟩ := res
+    simp only at this ⊢
+    exact ⟨this.1, this.2.1, fun h => Or.inr (this.2.2.1 h), this.2.2.2⟩
+
 /-! ## every index taken from a struct field -/
 
 /-- the table of index / slice expressions of the read-side files whose index is a struct field — the
